@@ -15,6 +15,12 @@ func init() { register("C20", checkC20) }
 // bitfieldAtom recognises (x & mask) >> sh and x & mask and x >> sh on a byte
 // parameter as the bit-field x[hi:lo].
 func bitfieldAtom(v ssa.Value, param ssa.Value) string {
+	return bitfieldAtomIn(nil, v, param)
+}
+
+// bitfieldAtomIn is bitfieldAtom in the flattened view of root (the masked
+// value may be a helper's parameter bound to param).
+func bitfieldAtomIn(root *ssa.Function, v ssa.Value, param ssa.Value) string {
 	v = stripConv(v)
 	sh := int64(0)
 	if bo, ok := v.(*ssa.BinOp); ok && bo.Op == token.SHR {
@@ -33,6 +39,9 @@ func bitfieldAtom(v ssa.Value, param ssa.Value) string {
 		}
 		mask = k
 		v = stripConv(bo.X)
+	}
+	if root != nil {
+		v = viewVal(root, v)
 	}
 	if v != param {
 		return ""
@@ -208,7 +217,7 @@ func checkC20(c *Ctx, r *Report) {
 			r.Unk("bcd.Decode|shape", f.Pos(), "not a single expression")
 		} else {
 			p := ssa.Value(f.Params[0])
-			got, err := polyOf(rets[0].Results[0], func(v ssa.Value) string { return bitfieldAtom(v, p) })
+			got, err := polyOfIn(f, rets[0].Results[0], func(v ssa.Value) string { return bitfieldAtomIn(f, v, p) })
 			want := polyAdd(polyMul(polyConst(10), polyAtom("b[7:4]")), polyAtom("b[3:0]"), 1)
 			if err != nil {
 				r.Bad("bcd.Decode|normal form", f.Pos(), "not a polynomial over bit-fields of the argument: "+err.Error())
